@@ -117,7 +117,8 @@ def splice_fn(text, item, key):
         inserts.append((toks[body][2], toks[body][2], '\n' + contract + '\n'))
     # loops
     loops = item.get('loops') or {}
-    if loops:
+    loop_body_open = {}
+    if loops or any(a.startswith('@loop') for a, _ in item.get('proofs') or []):
         idx = 0
         j = body + 1
         while j < body_close:
@@ -134,6 +135,7 @@ def splice_fn(text, item, key):
                     k += 1
                 if idx in loops:
                     inserts.append((toks[k][2], toks[k][2], '\n' + loops[idx].strip('\n') + '\n'))
+                loop_body_open[idx] = toks[k][3]
                 idx += 1
             j += 1
         missing = [i for i in loops if i >= idx]
@@ -143,6 +145,13 @@ def splice_fn(text, item, key):
     for anchor, ptxt in item.get('proofs') or []:
         if anchor == '@entry':
             p = toks[body][3]
+            inserts.append((p, p, '\n' + ptxt + '\n'))
+            continue
+        if anchor.startswith('@loop'):
+            k = int(anchor[5:])
+            if k not in loop_body_open:
+                raise LostAnchor('%s: proof anchor %s: loop not found' % (key, anchor))
+            p = loop_body_open[k]
             inserts.append((p, p, '\n' + ptxt + '\n'))
             continue
         rx = _lit_regex(anchor)
@@ -212,6 +221,77 @@ def extract_fragment(text, frag, key):
     raise ValueError(kind)
 
 
+RUST_KEYWORDS = {'if', 'match', 'while', 'for', 'loop', 'return', 'fn', 'let', 'Some', 'None', 'Ok', 'Err', 'assert', 'proof', 'forall', 'exists',
+                 'requires', 'ensures', 'invariant', 'decreases', 'old', 'final', 'choose', 'seq', 'matches', 'unreachable', 'unimplemented'}
+
+
+def called_names(text):
+    """free-function call sites `name(` (not methods, not paths, not macros, not definitions)"""
+    toks = lex(text)
+    names = set()
+    for j in range(len(toks) - 1):
+        t = toks[j]
+        if t[0] == 'id' and toks[j + 1][1] == '(' and t[1] not in RUST_KEYWORDS and t[1][0].islower():
+            prev = toks[j - 1][1] if j > 0 else ''
+            if prev in ('.', '::', 'fn'):
+                continue
+            names.add(t[1])
+    return names
+
+
+def split_params(ptxt):
+    """'a: &T, b: U' -> [('a', '&T'), ('b', 'U')] (top-level commas only)"""
+    out, depth, cur = [], 0, ''
+    for ch in ptxt:
+        if ch in '(<[':
+            depth += 1
+        elif ch in ')>]':
+            depth -= 1
+        if ch == ',' and depth == 0:
+            out.append(cur)
+            cur = ''
+        else:
+            cur += ch
+    if cur.strip():
+        out.append(cur)
+    res = []
+    for p in out:
+        n, _, ty = p.partition(':')
+        res.append((n.strip(), ty.strip()))
+    return res
+
+
+def auto_helper(text, name, key):
+    """A pure helper function that the extracted code calls but the unit does not name: emit it verbatim as an exec fn whose
+    contract is `result == <its own body read as a spec function>`.  A behaviour-preserving extract-helper refactor then stays
+    transparent to the callers' proofs; if the body is not expressible as a spec function Verus rejects it (=> exit 2)."""
+    toks = lex(text)
+    # signature pieces
+    j = 0
+    while toks[j][1] != '(':
+        j += 1
+    pc = match_close(toks, j)
+    params = split_params(text[toks[j][3]:toks[pc][2]])
+    k = pc + 1
+    arrow = None
+    while toks[k][1] != '{':
+        if toks[k][1] == '->':
+            arrow = k
+        if toks[k][1] in ('(', '['):
+            k = match_close(toks, k)
+        k += 1
+    if arrow is None:
+        raise LostAnchor('%s: auto helper %s has no return type' % (key, name))
+    rtype = text[toks[arrow][3]:toks[k][2]].strip()
+    body = text[toks[k][2]:toks[match_close(toks, k)][3]]
+    plist = ', '.join('%s: %s' % (n, t) for n, t in params)
+    args = ', '.join(n for n, _ in params)
+    return ('// auto-extracted pure helper (contract: result == its own body read as a spec function)\n'
+            'spec fn %s__spec(%s) -> %s %s\n'
+            'fn %s(%s) -> (r: %s)\n    ensures r == %s__spec(%s),\n%s\n'
+            % (name, plist, rtype, body, name, plist, rtype, name, args, body))
+
+
 def build(unit, repo, outdir):
     """returns (out_path, info) ; raises LostAnchor"""
     log, items_info = [], []
@@ -245,10 +325,45 @@ def build(unit, repo, outdir):
             'loops_with_invariant': sorted((item.get('loops') or {}).keys()),
         })
         rendered[key] = text
+    # ---- auto helpers -------------------------------------------------------------------------------
+    auto_txt = []
+    if getattr(unit, 'AUTO_HELPERS', False):
+        defined = set(re.findall(r'\bfn\s+([A-Za-z_][A-Za-z0-9_]*)', unit.TEMPLATE))
+        for t in rendered.values():
+            defined |= set(re.findall(r'\bfn\s+([A-Za-z_][A-Za-z0-9_]*)', t))
+        files = sorted({it['file'] for it in unit.ITEMS.values()})
+        work = [(k, t) for k, t in rendered.items()]
+        seen = set()
+        while work:
+            k, t = work.pop()
+            for name in sorted(called_names(t) - defined - seen):
+                seen.add(name)
+                for f in files:
+                    try:
+                        src = Source(os.path.join(repo, f))
+                        s0, e0, _, _ = src.find_item('fn ' + name)
+                    except (LookupError, LexError):
+                        continue
+                    raw = src.src[s0:e0]
+                    txt, nattr = strip_attrs(raw)
+                    txt = apply_rewrites(txt, [rw for rw in getattr(unit, 'GLOBAL_REWRITES', [])], log, 'auto:' + name)
+                    h = auto_helper(txt, name, k)
+                    auto_txt.append(h)
+                    defined.add(name)
+                    log.append({'item': 'auto:' + name, 'rule': 'auto-helper', 'file': f, 'called_from': k})
+                    items_info.append({'key': 'auto:' + name, 'file': f, 'item': 'fn ' + name, 'line_start': src.src.count('\n', 0, s0) + 1,
+                                       'line_end': src.src.count('\n', 0, e0) + 1, 'sha256_span': sha(raw), 'sha256_after_R1_R6': sha(txt),
+                                       'has_contract': True, 'loops_with_invariant': [], 'auto_helper': True})
+                    work.append(('auto:' + name, txt))
+                    break
     out = []
     linemap = []  # (first_line, last_line, key)
     used = set()
     for line in unit.TEMPLATE.split('\n'):
+        if re.match(r'\s*//@@auto-helpers\s*$', line):
+            for h in auto_txt:
+                out.extend(h.split('\n'))
+            continue
         m = re.match(r'\s*//@@\s*(\S+)\s*$', line)
         if m:
             key = m.group(1)
